@@ -331,10 +331,10 @@ def r6_map_nodes_read_only(ctx):
 
 
 RULES = [
-    Rule('C18.R1', 'mutable default arguments are never mutated (directly or through a stored alias)', r1_mutable_defaults, floor=6),
-    Rule('C18.R2', 'no mutated module/class-level state, no global, no caching decorators', r2_shared_state, floor=30),
-    Rule('C18.R3', 'time/random/env/id/hash only in the three envelope/date sites and only into the allowed fields', r3_nondeterminism, floor=12),
-    Rule('C18.R4', 'set values are sorted before any order-sensitive use', r4_set_order, floor=6),
-    Rule('C18.R5', 'fresh reader/walker/error handler/index/maps per call', r5_fresh_objects, floor=12),
-    Rule('C18.R6', 'loaded map nodes keep no per-call state (shared with C16.R9)', r6_map_nodes_read_only, floor=3),
+    Rule('C18.R1', 'mutable default arguments are never mutated (directly or through a stored alias)', r1_mutable_defaults, floor=4),
+    Rule('C18.R2', 'no mutated module/class-level state, no global, no caching decorators', r2_shared_state, floor=22),
+    Rule('C18.R3', 'time/random/env/id/hash only in the three envelope/date sites and only into the allowed fields', r3_nondeterminism, floor=9),
+    Rule('C18.R4', 'set values are sorted before any order-sensitive use', r4_set_order, floor=4),
+    Rule('C18.R5', 'fresh reader/walker/error handler/index/maps per call', r5_fresh_objects, floor=9),
+    Rule('C18.R6', 'loaded map nodes keep no per-call state (shared with C16.R9)', r6_map_nodes_read_only, floor=2),
 ]
